@@ -314,6 +314,11 @@ func (p *Program) interpretLockArm(fn *FuncInfo, ss *strSwitch, c *strClause) *L
 					lc.Gates[g] = true
 					lc.GateKind[g] = gateCondKind(info, s.Cond)
 				}
+				// gates behind a helper: if reason := s.helper(); reason != "" { return writeErr(reason) }
+				for g, kind := range p.helperGates(info, s) {
+					lc.Gates[g] = true
+					lc.GateKind[g] = kind
+				}
 				// no lock operation may hide inside
 				ast.Inspect(s, func(n ast.Node) bool {
 					if call, ok := n.(*ast.CallExpr); ok && p.serverMuOp(info, call) != lkNone {
@@ -385,6 +390,70 @@ func gateStrings(info *types.Info, s *ast.IfStmt) []string {
 				}
 				return true
 			})
+		}
+	}
+	return out
+}
+
+// helperGates recognises `if v := <helper>(); v != "" { return …(v) }` where the helper is a tile38
+// function that returns, at the top level of its body, constant strings under gate conditions and ""
+// otherwise; it yields message → condition kind, as if the helper's tests stood in the arm.
+func (p *Program) helperGates(info *types.Info, s *ast.IfStmt) map[string]string {
+	out := map[string]string{}
+	as, ok := s.Init.(*ast.AssignStmt)
+	if !ok || len(as.Lhs) != 1 || len(as.Rhs) != 1 {
+		return out
+	}
+	vid, ok := as.Lhs[0].(*ast.Ident)
+	if !ok {
+		return out
+	}
+	call, ok := ast.Unparen(as.Rhs[0]).(*ast.CallExpr)
+	if !ok {
+		return out
+	}
+	f := callee(info, call)
+	fi := p.FuncOf(f)
+	if f == nil || fi == nil {
+		return out
+	}
+	// the condition is v != ""
+	be, ok := ast.Unparen(s.Cond).(*ast.BinaryExpr)
+	if !ok || be.Op != token.NEQ {
+		return out
+	}
+	cid, ok := ast.Unparen(be.X).(*ast.Ident)
+	if !ok || info.ObjectOf(cid) != info.ObjectOf(vid) {
+		return out
+	}
+	if v, ok := constString(info, be.Y); !ok || v != "" {
+		return out
+	}
+	// the body returns, mentioning v
+	returnsV := false
+	for _, st := range s.Body.List {
+		if r, ok := st.(*ast.ReturnStmt); ok {
+			ast.Inspect(r, func(n ast.Node) bool {
+				if id, ok := n.(*ast.Ident); ok && info.ObjectOf(id) == info.ObjectOf(vid) {
+					returnsV = true
+				}
+				return true
+			})
+		}
+	}
+	if !returnsV {
+		return out
+	}
+	hinfo := fi.Info()
+	for _, st := range fi.Decl.Body.List {
+		ifs, ok := st.(*ast.IfStmt)
+		if !ok || ifs.Init != nil {
+			continue
+		}
+		for _, g := range gateStrings(hinfo, ifs) {
+			if g != "" {
+				out[g] = gateCondKind(hinfo, ifs.Cond)
+			}
 		}
 	}
 	return out
